@@ -303,6 +303,58 @@ func r18_4(c *RC) {
 	for _, fname := range []string{"runUDPAssociateLoop", "parseAllowedUDPAssociateDatagram"} {
 		_ = fname
 	}
+	// ... and what the datagram is sent to is that resolution's result and
+	// nothing remembered from an earlier datagram: every source of the
+	// address given to WriteToUDP in the upload direction is the result of
+	// resolveSocks5UDPAddr (or, in datagram mode, of the parser that calls it)
+	for _, fn := range p.Funcs(s5Pkg) {
+		if !strings.Contains(fn.Name(), "runUDPAssociate") && (fn.Parent() == nil || !strings.Contains(fn.Parent().Name(), "runUDPAssociate")) {
+			continue
+		}
+		instrs(fn, func(_ *ssa.BasicBlock, _ int, in ssa.Instruction) {
+			call, ok := in.(*ssa.Call)
+			if !ok || calleeName(call) != "WriteToUDP" {
+				return
+			}
+			var foreign []string
+			resolved := false
+			for _, l := range Leaves(call.Common().Args[2], nil) {
+				switch x := l.(type) {
+				case *ssa.Extract:
+					if cl, ok := x.Tuple.(*ssa.Call); ok {
+						switch calleeName(cl) {
+						case "resolveSocks5UDPAddr", "parseAllowedUDPAssociateDatagram", "parseUDPAssociateDatagram":
+							resolved = true
+							continue
+						}
+					}
+					if _, isLookup := x.Tuple.(*ssa.Lookup); isLookup {
+						foreign = append(foreign, "a value remembered in a map ("+describe(x.Tuple)+")")
+						continue
+					}
+					foreign = append(foreign, describe(l))
+				case *ssa.Lookup:
+					foreign = append(foreign, "a value remembered in a map ("+describe(x)+")")
+				case *ssa.Parameter:
+					foreign = append(foreign, "parameter "+x.Name())
+				default:
+					if isNilConst(l) {
+						continue
+					}
+					foreign = append(foreign, describe(l))
+				}
+			}
+			key := "send-to-own-destination@" + fnName(fn)
+			if !resolved {
+				return // the reply direction: written to the client's own address
+			}
+			if len(foreign) == 0 {
+				c.OKH(key, call.Pos(), "the address written to is the resolution of this datagram's own header")
+			} else {
+				c.Bad(key, call.Pos(), "a relayed datagram can be sent to %s instead of the resolution of its own header: a later datagram to the same name on another port (or to another name) goes to the wrong endpoint and its replies are filed under the wrong address", strings.Join(foreign, ", "))
+			}
+		})
+	}
 	for _, fn := range p.Funcs(s5Pkg) {
 		instrs(fn, func(_ *ssa.BasicBlock, _ int, in ssa.Instruction) {
 			call, ok := in.(*ssa.Call)
